@@ -111,6 +111,70 @@ def evaluate(expr_obj, ctx):
         return {"status": "error", "v": 0, "exc": f"{type(e).__name__}: {e}"[:150]}
 
 
+def big_pairs(d):
+    from harness import absyn
+
+    return [[codes(k), absyn.pint(v)] for k, v in d.items()]
+
+
+def evaluate_big(expr_obj, ctx):
+    from harness import absyn
+
+    try:
+        v = expr_obj.evaluate(dict(ctx))
+        if not isinstance(v, int) or isinstance(v, bool):
+            return {"status": "error", "v": {"k": "none"}, "exc": f"not an integer: {v!r}"[:100]}
+        return {"status": "ok", "v": absyn.pint(v)}
+    except Exception as e:  # noqa: BLE001
+        return {"status": "error", "v": {"k": "none"}, "exc": f"{type(e).__name__}: {e}"[:150]}
+
+
+def make_big_record(rid, text, ctx1, ctx2, consts):
+    """An expression over integers of any size (limb values everywhere), on a cstruct object of its own."""
+    from dissect.cstruct import Expression, cstruct
+
+    cs = cstruct()
+    cs.consts.update(consts)
+    cs.load("struct S { uint16 p; uint32 q; };")
+    rec = {"id": rid, "kind": "evalbig", "text": codes(text), "src": text, "ctx1": big_pairs(ctx1), "ctx2": big_pairs(ctx2),
+           "consts": big_pairs(consts), "sizes": env_pairs(SIZES)}
+    try:
+        e = Expression(cs, text)
+        f1 = evaluate_big(e, ctx1)
+        second = evaluate_big(e, ctx2)
+        again1 = evaluate_big(e, ctx1)
+        fresh2 = evaluate_big(Expression(cs, text), ctx2)
+    except Exception as ex:  # noqa: BLE001
+        err = {"status": "error", "v": {"k": "none"}, "exc": f"{type(ex).__name__}: {ex}"[:150]}
+        f1 = second = again1 = fresh2 = err
+    rec["obs"] = {"fresh1": f1, "second": second, "again1": again1, "fresh2": fresh2}
+    return rec
+
+
+BIG = [2 ** 53 + 1, 2 ** 64 - 1, 2 ** 64, 2 ** 63, 10 ** 30 + 7, 0xFFFFFFFFFFFFFFFFFFFF, 2 ** 31, 2 ** 32 + 5, 3 ** 40, 2 ** 24 + 1, 12345678901234567890]
+
+
+def rand_big_tree(rnd, depth):
+    if depth == 0 or rnd.random() < 0.25:
+        r = rnd.random()
+        if r < 0.45:
+            return Node("lit", n=rnd.choice(BIG + [1, 2, 3, 7, 255, 1000, 65536]))
+        if r < 0.8:
+            return Node("id", name=rnd.choice(["a", "b", "K", "big", "len"]))
+        return Node("sizeof", name=rnd.choice(list(SIZES)))
+    if rnd.random() < 0.2:
+        return Node("un", o=rnd.choice("-~"), e=rand_big_tree(rnd, depth - 1))
+    o = rnd.choice(BINOPS)
+    l = rand_big_tree(rnd, depth - 1)
+    if o in ("<<", ">>"):
+        r = Node("lit", n=rnd.choice([0, 1, 7, 8, 31, 32, 33, 64, 100]))
+    elif o in ("/", "%"):
+        r = rnd.choice([Node("lit", n=rnd.choice([1, 2, 3, 7, 10, 1024, 2 ** 32, 10 ** 12, 2 ** 53 + 1])), rand_big_tree(rnd, 0)])
+    else:
+        r = rand_big_tree(rnd, depth - 1)
+    return Node("bin", o=o, l=l, r=r)
+
+
 def make_record(rid, text, ctx1, ctx2, consts, cs):
     from dissect.cstruct import Expression
 
@@ -203,13 +267,20 @@ class ExprCheck:
             if any(i in txt for i in ("_x1", "U2", "len")):
                 continue
             recs.append(arrlen_record(len(recs), txt, rnd, {"K": 2, "len": 4}))
+        # unbounded integers: literals, constants and field values far beyond 2^53 / 2^64 (judged by BigMeaning)
+        bctx1 = {"a": 2 ** 70 + 3, "b": 5, "big": 10 ** 25, "len": 0}
+        bctx2 = {"a": 0, "b": 2 ** 64 - 1, "big": 2 ** 53 + 1}
+        bconsts = {"K": 2 ** 40, "a": 7, "len": 12345678901234567890, "big": 1}
+        for _ in range(6000 if thorough else 500):
+            t = rand_big_tree(rnd, rnd.randrange(1, 4))
+            recs.append(make_big_record(len(recs), render(t, rnd, 0, rnd.random() < 0.2), bctx1, bctx2, bconsts))
         rep.evaluations += len(recs)
         verdicts, stats = tlc.validate_batch("Trace_Expr", recs)
         rep.traces += len(verdicts)
         for r in recs:
             v = verdicts[r["id"]]
             if any(c.startswith("SPECBUG") for c in v):
-                raise MachineryError(f"generated expression is not well-formed for the grammar: {r['src']!r}")
+                raise MachineryError(f"specification failure {v} on the generated expression {r['src']!r}")
             if any(c.startswith("SKIP") for c in v):
                 rep.count(v[0])
                 continue
